@@ -11,6 +11,9 @@ CONSTANTS
     FamsRep <- RepFams
     FullMid = 1
     FullDepth = 1
+    OpenOps <- AllOpenOps
+    WideOpen = FALSE
+    Paths <- AllPaths
 INVARIANT Emit
 INVARIANT HasControl
 INVARIANT ReportHoles
